@@ -114,3 +114,123 @@ def symbolic_parents(ctx, sizes, onto=False):
         if onto and len(set(parents[li])) != sizes[li - 1]:
             raise core.PathAbort('childless inner node (outside case)')
     return parents
+
+
+# ------------------------------------------------------------ h5 / files
+import atexit  # noqa: E402
+import os  # noqa: E402
+import shutil  # noqa: E402
+import tempfile  # noqa: E402
+
+from symx import h5model  # noqa: E402
+
+SANDBOX = {'root': None, 'n': 0}
+H5 = {'fake': False}
+
+
+def install_h5(*modules):
+    H5['fake'] = True
+    for m in modules:
+        patch(m, 'h5py', h5model.h5py)
+
+
+def sandbox_root():
+    if SANDBOX['root'] is None or SANDBOX.get('pid') != os.getpid():
+        SANDBOX['root'] = tempfile.mkdtemp(prefix='symx_sbx_')
+        SANDBOX['pid'] = os.getpid()
+    return SANDBOX['root']
+
+
+def cleanup_sandbox():
+    r = SANDBOX.get('root')
+    if r and SANDBOX.get('pid') == os.getpid():
+        shutil.rmtree(r, ignore_errors=True)
+        SANDBOX['root'] = None
+
+
+class Env:
+    """per-path scratch directory + h5 access in the current mode"""
+
+    def __init__(self, ctx):
+        self.ctx = ctx
+        root = sandbox_root()
+        for n in os.listdir(root):
+            shutil.rmtree(os.path.join(root, n), ignore_errors=True)
+        SANDBOX['n'] += 1
+        self.dir = os.path.join(root, f"p{SANDBOX['n']}")
+        os.makedirs(self.dir)
+        h5model.reset()
+        self.fake = H5['fake']
+
+    def path(self, name):
+        return os.path.join(self.dir, name)
+
+    def File(self, path, mode='r'):
+        if self.fake:
+            return h5model.File(path, mode)
+        import h5py
+        return h5py.File(path, mode)
+
+    def values(self, vals, dtype):
+        """dataset payload for harness-made values"""
+        if self.fake:
+            return sarr(list(vals), decl=None) if len(vals) \
+                else sarr(np.empty((0,), dtype=object))
+        return np.array(list(vals), dtype=dtype)
+
+    def write_sparse(self, grp, indptr, indices, data, dtype=np.float32,
+                     idx_dtype=np.int32, chunks=None):
+        kw = {}
+        grp.create_dataset('indptr', data=np.array(indptr, dtype=idx_dtype))
+        if chunks is not None and len(indices) > 0:
+            kw['chunks'] = (min(chunks, len(indices)),)
+        grp.create_dataset('indices',
+                           data=np.array(indices, dtype=idx_dtype), **kw)
+        if data is not None:
+            if self.fake:
+                grp.create_dataset('data', data=self.values(data, dtype),
+                                   dtype=dtype, **kw)
+            else:
+                grp.create_dataset('data', data=np.array(
+                    [float(x) for x in data], dtype=dtype), **kw)
+
+
+def dense_from_bits(ctx, name, nr, nc, lo=None, hi=None, ints_only=False):
+    """solver-chosen sparsity pattern with symbolic values.
+    returns (dense nested list with None for absent, csr triple,
+    csc triple) — values are harness inputs"""
+    dense = [[None] * nc for _ in range(nr)]
+    for r in range(nr):
+        for c in range(nc):
+            if ctx.flag(f"{name}.nz[{r},{c}]"):
+                dense[r][c] = (ctx.int if ints_only else ctx.real)(
+                    f"{name}[{r},{c}]", lo, hi)
+    return dense
+
+
+def to_csr(dense):
+    indptr, indices, data = [0], [], []
+    for row in dense:
+        for c, v in enumerate(row):
+            if v is not None:
+                indices.append(c)
+                data.append(v)
+        indptr.append(len(indices))
+    return indptr, indices, data
+
+
+def to_csc(dense):
+    nr = len(dense)
+    nc = len(dense[0]) if nr else 0
+    return to_csr([[dense[r][c] for r in range(nr)] for c in range(nc)])
+
+
+def same_value(ctx, a, b):
+    """exact identity of a stored value with the harness input it came
+    from (term identity symbolically; float32-rounded equality when
+    replayed through real files)"""
+    if ctx.mode == 'sym':
+        return core.same_term(a, b)
+    if USE_SHIM_ARRAYS['on']:
+        return a == b
+    return np.float32(a) == np.float32(b) or a == b
